@@ -4,6 +4,7 @@ translation fail loudly (the generated definition is then `[Stmt.raise "UNTRANSL
 theorems that mention it).  Output: lean/PydapModel/Generated/SliceSrc.lean, rewritten only when it changes."""
 import ast
 import os
+import re
 
 
 class Untranslatable(Exception):
@@ -14,7 +15,42 @@ def lstr(s):
     return '"' + s.replace("\\", "\\\\").replace('"', '\\"') + '"'
 
 
+# Opaque inputs of the block being translated: exact source text (ast.unparse) of an expression → the name of
+# the MiniPy variable that stands for its value.  Set per block by `abstracting(...)`; the theorem about the block
+# quantifies over the values of these variables.  Purely textual: nothing is evaluated.
+ABSTRACT = {}
+
+
+class abstracting(object):
+    def __init__(self, table):
+        self.table = table
+
+    def __enter__(self):
+        global ABSTRACT
+        self.old, ABSTRACT = ABSTRACT, self.table
+
+    def __exit__(self, *a):
+        global ABSTRACT
+        ABSTRACT = self.old
+
+
+def codes(text):
+    return "[%s]" % ", ".join(str(ord(c)) for c in text)
+
+
+def is_str(e):
+    return isinstance(e, ast.Constant) and isinstance(e.value, str)
+
+
+def is_intconst(e):
+    return isinstance(e, ast.Constant) and isinstance(e.value, int) and not isinstance(e.value, bool)
+
+
 def expr(e):
+    if ABSTRACT:
+        key = ast.unparse(e)
+        if key in ABSTRACT:
+            return "(.var %s)" % lstr(ABSTRACT[key])
     if isinstance(e, ast.Constant):
         if e.value is None:
             return ".none"
@@ -22,18 +58,27 @@ def expr(e):
             raise Untranslatable("bool constant")
         if isinstance(e.value, int):
             return "(.int (%d))" % e.value
+        if isinstance(e.value, str):
+            return "(.strc %s)" % codes(e.value)
         raise Untranslatable("constant %r" % (e.value,))
     if isinstance(e, ast.Name):
         if e.id == "MAXSIZE":
             return ".maxsize"
         return "(.var %s)" % lstr(e.id)
     if isinstance(e, ast.Attribute):
+        if isinstance(e.value, ast.Name) and e.value.id == "sys" and e.attr == "byteorder":
+            return "(.var %s)" % lstr("sys.byteorder")      # the host byte order is an input of the block
         return "(.attr %s %s)" % (expr(e.value), lstr(e.attr))
     if isinstance(e, ast.BinOp):
-        op = {ast.Add: "add", ast.Sub: "sub", ast.Mult: "mul"}.get(type(e.op))
+        if is_str(e.left):
+            raise Untranslatable("string formatting with %")
+        op = {ast.Add: "add", ast.Sub: "sub", ast.Mult: "mul", ast.BitAnd: "band", ast.BitOr: "bor",
+              ast.RShift: "shr", ast.LShift: "shl", ast.Mod: "mod", ast.FloorDiv: "floordiv"}.get(type(e.op))
         if not op:
             raise Untranslatable("binop %s" % type(e.op).__name__)
         return "(.%s %s %s)" % (op, expr(e.left), expr(e.right))
+    if isinstance(e, ast.UnaryOp) and isinstance(e.op, ast.USub):
+        return "(.neg %s)" % expr(e.operand)
     if isinstance(e, ast.Compare):
         if len(e.ops) != 1:
             raise Untranslatable("chained comparison")
@@ -42,7 +87,11 @@ def expr(e):
             return "(.isNone %s)" % expr(e.left)
         if isinstance(op, ast.IsNot) and isinstance(r, ast.Constant) and r.value is None:
             return "(.isNotNone %s)" % expr(e.left)
-        name = {ast.Lt: "lt", ast.LtE: "le", ast.Gt: "gt", ast.GtE: "ge", ast.Eq: "eq"}.get(type(op))
+        if isinstance(op, (ast.Eq, ast.NotEq)) and (is_str(e.left) or is_str(r)):
+            return "(.%s %s %s)" % ("eqStr" if isinstance(op, ast.Eq) else "neStr", expr(e.left), expr(r))
+        if isinstance(op, ast.In) and isinstance(r, (ast.Tuple, ast.List)) and all(is_intconst(x) for x in r.elts):
+            return "(.inInts %s [%s])" % (expr(e.left), ", ".join("(%d)" % x.value for x in r.elts))
+        name = {ast.Lt: "lt", ast.LtE: "le", ast.Gt: "gt", ast.GtE: "ge", ast.Eq: "eq", ast.NotEq: "ne"}.get(type(op))
         if not name:
             raise Untranslatable("comparison %s" % type(op).__name__)
         return "(.%s %s %s)" % (name, expr(e.left), expr(r))
@@ -68,26 +117,70 @@ def expr(e):
             return "(.isInt %s)" % expr(a[0])
         if f == "len" and len(a) == 1:
             return "(.len %s)" % expr(a[0])
+        if f == "int" and len(a) == 1:
+            x = a[0]
+            if isinstance(x, ast.Call) and isinstance(x.func, ast.Attribute) and x.func.attr == "prod" \
+                    and isinstance(x.func.value, ast.Name) and x.func.value.id in ("np", "numpy") \
+                    and len(x.args) == 1 and not x.keywords:
+                return "(.prod %s)" % expr(x.args[0])          # int(np.prod(shape))
+            return "(.intOf %s)" % expr(x)
+        if f == "bool" and len(a) == 1:
+            return "(.boolOf %s)" % expr(a[0])
+    if isinstance(e, ast.Call) and isinstance(e.func, ast.Attribute) and e.func.attr == "format" \
+            and is_str(e.func.value) and len(e.args) == 1 and not e.keywords:
+        m = re.fullmatch(r"\{0:0(\d+)b\}", e.func.value.value)
+        if not m:
+            raise Untranslatable("format string %r" % e.func.value.value)
+        return "(.fmtBin %d %s)" % (int(m.group(1)), expr(e.args[0]))
+    if isinstance(e, ast.Subscript) and isinstance(e.slice, ast.Slice):
+        sl = e.slice
+        if sl.lower is None and sl.upper is None and isinstance(sl.step, ast.UnaryOp) \
+                and isinstance(sl.step.op, ast.USub) and is_intconst(sl.step.operand) and sl.step.operand.value == 1:
+            return "(.rev %s)" % expr(e.value)                   # x[::-1]
+        raise Untranslatable("slice subscript")
+    if isinstance(e, ast.Subscript) and isinstance(e.value, ast.Dict):
+        d = e.value
+        if d.keys and all(k is not None and is_str(k) for k in d.keys) and all(is_str(v) for v in d.values):
+            tbl = ", ".join("(%s, %s)" % (codes(k.value), codes(v.value)) for k, v in zip(d.keys, d.values))
+            return "(.strMap [%s] %s)" % (tbl, expr(e.slice))
+        raise Untranslatable("dict literal")
     if isinstance(e, ast.Subscript) and isinstance(e.slice, ast.Constant) and isinstance(e.slice.value, int) \
             and e.slice.value >= 0:
         return "(.idx %s %d)" % (expr(e.value), e.slice.value)
     raise Untranslatable(ast.dump(e)[:80])
 
 
-def stmts(body, sink):
-    out = ".skip"
-    for s in reversed(body):
-        out = "(.seq %s %s)" % (stmt(s, sink), out) if out != ".skip" else stmt(s, sink)
-    return out
+def stmts(body, sink, tail=False):
+    """`tail`: the block is the last thing its function does, so a `return` at its end may be translated
+    (as assignments to `@ret` / `@ret0…`); a `return` anywhere else is outside the fragment."""
+    out = None
+    for i, s in reversed(list(enumerate(body))):
+        if isinstance(s, ast.Expr) and is_str(s.value):
+            continue                                               # docstring
+        t = stmt(s, sink, tail and i == len(body) - 1)
+        out = t if out is None else "(.seq %s %s)" % (t, out)
+    return out or ".skip"
 
 
-def stmt(s, sink):
+def stmt(s, sink, tail=False):
+    if isinstance(s, ast.Return):
+        if not tail:
+            raise Untranslatable("return that is not in tail position")
+        if s.value is None:
+            return "(.assign %s .none)" % lstr("@ret")
+        if isinstance(s.value, ast.Tuple):
+            parts = ["(.assign %s %s)" % (lstr("@ret%d" % i), expr(x)) for i, x in enumerate(s.value.elts)]
+            out = parts[-1]
+            for q in reversed(parts[:-1]):
+                out = "(.seq %s %s)" % (q, out)
+            return out
+        return "(.assign %s %s)" % (lstr("@ret"), expr(s.value))
     if isinstance(s, ast.Assign) and len(s.targets) == 1 and isinstance(s.targets[0], ast.Name):
         return "(.assign %s %s)" % (lstr(s.targets[0].id), expr(s.value))
     if isinstance(s, ast.AugAssign) and isinstance(s.target, ast.Name) and isinstance(s.op, ast.Add):
         return "(.augAdd %s %s)" % (lstr(s.target.id), expr(s.value))
     if isinstance(s, ast.If):
-        return "(.ite %s %s %s)" % (expr(s.test), stmts(s.body, sink), stmts(s.orelse, sink))
+        return "(.ite %s %s %s)" % (expr(s.test), stmts(s.body, sink, tail), stmts(s.orelse, sink, tail))
     if isinstance(s, ast.Raise):
         exc = s.exc
         name = exc.func.id if isinstance(exc, ast.Call) and isinstance(exc.func, ast.Name) else \
@@ -172,17 +265,81 @@ def generate(repo):
     return "\n".join(parts)
 
 
+HEADER = ("/- GENERATED by harness/py2lean.py from the repository's current source text. Do not edit. -/\n"
+          "import PydapModel.MiniPy\nnamespace Pydap.Gen\nopen Pydap.MiniPy Pydap.MiniPy.Expr Pydap.MiniPy.Stmt\n")
+
+
+def parse_src(repo, *rel):
+    with open(os.path.join(repo, "src", "pydap", *rel), encoding="utf-8") as f:
+        return ast.parse(f.read())
+
+
+def find_method(tree, cls, name):
+    for n in ast.walk(tree):
+        if isinstance(n, ast.ClassDef) and n.name == cls:
+            return find_function(n, name)
+    raise Untranslatable("class %s not found" % cls)
+
+
+def assignments(fn, names):
+    """the assignments `x = e` (x in names) of a function, in source order, as one block"""
+    found = [n for n in ast.walk(fn) if isinstance(n, ast.Assign) and len(n.targets) == 1
+             and isinstance(n.targets[0], ast.Name) and n.targets[0].id in names]
+    found.sort(key=lambda n: (n.lineno, n.col_offset))
+    if [n.targets[0].id for n in found] != list(names):
+        raise Untranslatable("expected exactly the assignments %s, found %s"
+                             % (list(names), [n.targets[0].id for n in found]))
+    return stmts(found, None)
+
+
+def generate_dap(repo):
+    """handlers/dap.py: DAP4 chunk-header decoding (C10, C09)"""
+    dap = parse_src(repo, "handlers", "dap.py")
+
+    def chunktype():
+        return stmts(find_function(dap, "decode_chunktype").body, None, tail=True)
+
+    def s2b_fields():
+        return assignments(find_function(dap, "stream2bytearray"), ["chunk_size", "chunk_type"])
+
+    def dmr_fields():
+        return assignments(find_method(dap, "UNPACKDAP4DATA", "safe_dmr_and_data"), ["dmr_length", "chunk_type"])
+
+    def endian_fields():
+        return assignments(find_function(dap, "get_endianness"), ["chunk_type"])
+
+    parts = [HEADER,
+             block("src_decode_chunktype", "handlers/dap.py decode_chunktype: the whole body; `return a, b, c` is "
+                   "`@ret0 = a; @ret1 = b; @ret2 = c`; `sys.byteorder` is the input variable `sys.byteorder`",
+                   chunktype),
+             block("src_stream2bytearray_fields", "handlers/dap.py stream2bytearray: `chunk_size = …; chunk_type = …` "
+                   "computed from `chunk_header`", s2b_fields),
+             block("src_safe_dmr_and_data_fields", "handlers/dap.py UNPACKDAP4DATA.safe_dmr_and_data: "
+                   "`dmr_length = …; chunk_type = …` computed from `chunk_header`", dmr_fields),
+             block("src_get_endianness_fields", "handlers/dap.py get_endianness: `chunk_type = …` computed from "
+                   "`chunk_header`", endian_fields),
+             "end Pydap.Gen\n"]
+    return "\n".join(parts)
+
+
+GENERATORS = [("SliceSrc.lean", generate), ("DapSrc.lean", generate_dap)]
+
+
 def write(repo, verif):
-    text = generate(repo)
-    path = os.path.join(verif, "lean", "PydapModel", "Generated", "SliceSrc.lean")
-    os.makedirs(os.path.dirname(path), exist_ok=True)
-    old = open(path, encoding="utf-8").read() if os.path.exists(path) else None
-    if old != text:
-        with open(path, "w", encoding="utf-8") as f:
-            f.write(text)
-        return True
-    return False
+    changed = False
+    for fname, gen in GENERATORS:
+        text = gen(repo)
+        path = os.path.join(verif, "lean", "PydapModel", "Generated", fname)
+        os.makedirs(os.path.dirname(path), exist_ok=True)
+        old = open(path, encoding="utf-8").read() if os.path.exists(path) else None
+        if old != text:
+            with open(path, "w", encoding="utf-8") as f:
+                f.write(text)
+            changed = True
+    return changed
 
 
 if __name__ == "__main__":
-    print(generate(os.environ.get("VERIF_REPO", "/repo")))
+    for fname, gen in GENERATORS:
+        print("-- " + fname)
+        print(gen(os.environ.get("VERIF_REPO", "/repo")))
